@@ -4,6 +4,7 @@ import (
 	"encoding/json"
 	"fmt"
 	"math/big"
+	"sync/atomic"
 	"time"
 
 	"gitlab.com/aquachain/aquachain/aquadb"
@@ -118,7 +119,7 @@ func (b *builder) add(parent *types.Block, plan gen.BlockPlan) *gen.Built {
 		b.t.Order = append(b.t.Order, blt)
 		return blt
 	}
-	panic("c04: cannot avoid a total-difficulty tie at one height")
+	return nil // both speed classes are taken at this height: the caller ends the branch here
 }
 
 func (b *builder) plan(maxTx int, fast bool) gen.BlockPlan {
@@ -143,6 +144,9 @@ func (b *builder) chain(parent *types.Block, n, maxTx int, fast bool) []*types.B
 	var out []*types.Block
 	for i := 0; i < n; i++ {
 		blt := b.add(parent, b.plan(maxTx, fast))
+		if blt == nil {
+			break
+		}
 		out = append(out, blt.Block)
 		parent = blt.Block
 	}
@@ -186,30 +190,36 @@ func Build(spec Spec) *Workload {
 		wl.Steps = append(wl.Steps, batches(r, side, 2)...)
 		// a longer branch: forks 5 below the tip, 8 blocks
 		long := b.chain(main[m-6], 8, 4, false)
-		if tdOf(long[len(long)-1]).Cmp(tdOf(main[m-1])) > 0 && long[len(long)-1].NumberU64() > main[m-1].NumberU64() {
+		if len(long) > 0 && tdOf(long[len(long)-1]).Cmp(tdOf(main[m-1])) > 0 && long[len(long)-1].NumberU64() > main[m-1].NumberU64() {
 			wl.LongerFork = true
 		}
 		wl.Steps = append(wl.Steps, batches(r, long, 3)...)
-		head := long[len(long)-1]
-		if !wl.LongerFork {
-			head = main[m-1]
+		head := main[m-1]
+		for _, x := range long { // the fork choice takes the heaviest block seen so far
+			if tdOf(x).Cmp(tdOf(head)) > 0 {
+				head = x
+			}
 		}
 		// a shorter but heavier branch: forks 24 below the current head, 23 fast blocks
 		path := b.t.Path(head)
 		forkAt := path[len(path)-25]
 		sh := b.chain(forkAt, 23, 3, true)
-		shTip := sh[len(sh)-1]
-		if tdOf(shTip).Cmp(tdOf(head)) > 0 && shTip.NumberU64() < head.NumberU64() {
-			wl.ShorterHeavier = true
-			head = shTip
-		} else if tdOf(shTip).Cmp(tdOf(head)) > 0 {
-			head = shTip
+		// the fork choice takes the heaviest block seen so far
+		for _, x := range sh {
+			if tdOf(x).Cmp(tdOf(head)) > 0 {
+				if x.NumberU64() < head.NumberU64() {
+					wl.ShorterHeavier = true
+				}
+				head = x
+			}
 		}
 		wl.Steps = append(wl.Steps, batches(r, sh, 4)...)
 		// the new head is extended
 		ext := b.chain(head, 3, 4, false)
 		wl.Steps = append(wl.Steps, batches(r, ext, 2)...)
-		head = ext[len(ext)-1]
+		if len(ext) > 0 {
+			head = ext[len(ext)-1]
+		}
 		// rewind, import the same blocks again, stop
 		back := uint64(r.Range(2, 6))
 		wl.Steps = append(wl.Steps, Step{Kind: "sethead", N: head.NumberU64() - back})
@@ -226,7 +236,7 @@ func Build(spec Spec) *Workload {
 		wl.Steps = append(wl.Steps, batches(r, main, 6)...)
 		// a fork near the tip while everything recent is still in memory
 		long := b.chain(main[m-4], 6, 2, false)
-		if tdOf(long[len(long)-1]).Cmp(tdOf(main[m-1])) > 0 {
+		if len(long) > 0 && tdOf(long[len(long)-1]).Cmp(tdOf(main[m-1])) > 0 {
 			wl.LongerFork = true
 		}
 		wl.Steps = append(wl.Steps, batches(r, long, 3)...)
@@ -244,7 +254,7 @@ func Build(spec Spec) *Workload {
 		// fork from head-4 is a chain of blocks with pruned ancestors, stored
 		// without state until it is heavier, then re-executed from the last state
 		long := b.chain(main[m-5], 8, 2, false)
-		if tdOf(long[len(long)-1]).Cmp(tdOf(main[m-1])) > 0 {
+		if len(long) > 0 && tdOf(long[len(long)-1]).Cmp(tdOf(main[m-1])) > 0 {
 			wl.LongerFork = true
 		}
 		wl.Steps = append(wl.Steps, batches(r, long, 3)...)
@@ -279,7 +289,7 @@ func Build(spec Spec) *Workload {
 				metas = append(metas, &gen.TxMeta{Kind: gen.TxTransfer, Sender: s, Tx: signed})
 			}
 			blt := b.add(parent, gen.BlockPlan{Reuse: metas, Coinbase: w.Coinbases[i%len(w.Coinbases)]})
-			if len(blt.Txs) != perBlock {
+			if blt == nil || len(blt.Txs) != perBlock {
 				panic("c04: bigpre block did not take all its transactions")
 			}
 			main = append(main, blt.Block)
@@ -334,12 +344,20 @@ type Run struct {
 // After a failure has happened the locks are probed at every quiescent point; a
 // held lock ends the run (going on would block forever).
 func (wl *Workload) Execute(fail *journaldb.FailSpec, onFail func(*journaldb.Failure)) *Run {
-	return wl.execute(fail, onFail, nil)
+	return wl.execute(fail, onFail, nil, nil)
 }
 
-func (wl *Workload) execute(fail *journaldb.FailSpec, onFail func(*journaldb.Failure), withJournal func(*journaldb.DB)) *Run {
-	mem, _ := wl.W.NewDB()
-	j := journaldb.New(mem, journaldb.SnapshotMem(mem))
+// execute: store (may be nil) is an empty database to run on instead of a fresh
+// MemDatabase; withJournal sees the journal before the first write.
+func (wl *Workload) execute(fail *journaldb.FailSpec, onFail func(*journaldb.Failure), withJournal func(*journaldb.DB), store aquadb.Database) *Run {
+	var j *journaldb.DB
+	if store != nil {
+		wl.W.CommitGenesis(store)
+		j = journaldb.New(store, nil)
+	} else {
+		mem, _ := wl.W.NewDB()
+		j = journaldb.New(mem, journaldb.SnapshotMem(mem))
+	}
 	if withJournal != nil {
 		withJournal(j)
 	}
@@ -362,6 +380,7 @@ func (wl *Workload) execute(fail *journaldb.FailSpec, onFail func(*journaldb.Fai
 		run.PanicText = err.Error()
 		return run
 	}
+	liveChain.Store(bc)
 	stopped := false
 	for i, st := range wl.Steps {
 		if st.Kind == "restart" {
@@ -401,6 +420,7 @@ func (wl *Workload) execute(fail *journaldb.FailSpec, onFail func(*journaldb.Fai
 					stopped = true
 				} else {
 					bc = nbc
+					liveChain.Store(bc)
 				}
 			}
 		}()
@@ -431,6 +451,10 @@ func (wl *Workload) execute(fail *journaldb.FailSpec, onFail func(*journaldb.Fai
 	}
 	return run
 }
+
+// liveChain is the chain object the running workload currently drives (read by
+// the lock monitor of a fault-injection process).
+var liveChain atomic.Value
 
 // probeLocks returns the name of a lock that is held at a quiescent point, or "".
 func probeLocks(bc *core.BlockChain) string {
